@@ -6,7 +6,7 @@ W = 16
 
 def jobs(tier):
     q = tier == "quick"
-    return [Job("c12_state", "flt-asan", "random", workers=W, cases=350 if q else 9000, maxtime=90 if q else 900)]
+    return [Job("c12_state", "flt-asan", "random", workers=W, cases=350 if q else 6000, maxtime=240 if q else 1800)]
 
 
 PROP = dict(
